@@ -368,8 +368,8 @@ delitem = _mk(Contract(
     loops={2: Loop(inv=[
         ("C:assigned-so-far", "forall(lambda j: implies(0 <= j and j < pos(_it2), KDHAS(self, TATF(new_key, j)) and KEYS_OF(self, TATF(new_key, j)) == new_key))"),
         ("C:others-unchanged", "forall(lambda k: implies(not INF(k, new_key) or TIDXF(new_key, k) >= pos(_it2), KD_UNCHANGED_EXCEPT_KEY(self, k, key)), Key)"),
-        ("C:frame", "ID_IS_OLD_MINUS(self, value) and SD_IS_OLD_MINUS(self, key_tuple) and length(_it2) == TLEN(new_key)"),
-    ])},
+        ("C:frame", "DEL_FRAME() and length(_it2) == TLEN(new_key)"),
+    ], pre=[lambda m: _snapshot_into(m, m.locals["self"], m.ghost, "L")])},
     ensures=[
         ("S:the-deleted-key-is-gone-and-every-other-key-keeps-its-value",
          "forall(lambda k: HAS(self, k) == (OLDHAS(k) and k != key) and implies(OLDHAS(k) and k != key, MAP(self, k) == OLDMAP(k)), Key)"),
@@ -382,6 +382,19 @@ delitem = _mk(Contract(
     replay="oracles.bounded_adapter:c15",
     stated=["deleting a key removes exactly that key: the value keeps its other keys in order (or disappears with its last key), nothing else changes, the representation invariant is preserved; a missing key raises KeyError"]))
 delitem.ghost_init_hook = _delitem_init
+delitem.ghost_const = {"KDd0", "KDv0", "IDd0", "IDv0", "SDd0", "SDv0", "KDdL", "KDvL", "IDdL", "IDvL", "SDdL", "SDvL"}
+
+
+@_spec
+def DEL_FRAME(m, node):
+    """the loop writes _keys_dict only: the two other maps are what they were when the loop started (whatever was done before it)"""
+    o = m.locals["self"]
+    IDd, IDv = _dv(m, o, "_inv_dict")
+    SDd, SDv = _dv(m, o, "__storage__")
+    return z3.And(IDd == m.ghost["IDdL"], IDv == m.ghost["IDvL"], SDd == m.ghost["SDdL"], SDv == m.ghost["SDvL"])
+
+
+_ENV.update(DEL_FRAME=DEL_FRAME)
 
 
 # ---------------------------------------------------------------------------
@@ -729,6 +742,38 @@ _ENV.update(SETT_MAP=SETT_MAP, SETT_OTHERS=SETT_OTHERS, SETT_NEW_AFTER_OLD=SETT_
 _ENV.update(L1_SHAPE=L1_SHAPE, L1_ITEMS=L1_ITEMS, L1_COVER=L1_COVER, KEY1_NONEMPTY=KEY1_NONEMPTY, KEY1_DISTINCT=KEY1_DISTINCT, KEY1_MEMBERS=KEY1_MEMBERS, KEY1_ORDER=KEY1_ORDER, KEY1_MEMBERS2=KEY1_MEMBERS2, L2_SHAPE=L2_SHAPE, L2_MAP=L2_MAP, L2_ORDER=L2_ORDER,
             L3_SHAPE=L3_SHAPE, L3_KD=L3_KD, SET_MAP=SET_MAP, SET_GROUPS=SET_GROUPS, SET_RECENT_LAST=SET_RECENT_LAST)
 
+def _wf_parts(m, o):
+    KDd, KDv = _dv(m, o, "_keys_dict")
+    IDd, IDv = _dv(m, o, "_inv_dict")
+    SDd, SDv = _dv(m, o, "__storage__")
+    k, t, v, i = z3.Const("k!wf", K), z3.Const("t!wf", T), z3.Const("v!wf", V), z3.Int("i!wf")
+    return [z3.ForAll([k], z3.Implies(KDd[k], z3.And(SDd[KDv[k]], IN(k, KDv[k])))),
+            z3.ForAll([t], z3.Implies(SDd[t], z3.And(TLEN(t) >= 1, IDd[SDv[t]], IDv[SDv[t]] == t))),
+            z3.ForAll([t, i], z3.Implies(z3.And(SDd[t], i >= 0, i < TLEN(t)), z3.And(KDd[TAT(t, i)], KDv[TAT(t, i)] == t, TIDX(t, TAT(t, i)) == i))),
+            z3.ForAll([v], z3.Implies(IDd[v], z3.And(SDd[IDv[v]], SDv[IDv[v]] == v)))]
+
+
+def _wfp(i):
+    @_spec
+    def f(m, node):
+        return _wf_parts(m, m.eval(node.args[0]))[i]
+    return f
+
+
+@_spec
+def SET_NO_NEW_VALUES(m, node):
+    """a value owned afterwards is the value assigned now or was owned before"""
+    KDd, KDv, IDd, IDv, SDd, SDv = _cur(m)
+    w = z3.Const("w!nv", V)
+    return z3.ForAll([w], z3.Implies(IDd[w], z3.Or(w == m.params0["value"], _g(m, "IDd0")[w])))
+
+
+_ENV.update(SET_NO_NEW_VALUES=SET_NO_NEW_VALUES)
+_ENV.update(WF_KEYS=_wfp(0), WF_STORED=_wfp(1), WF_ITEMS=_wfp(2), WF_VALUES=_wfp(3))
+_WF_SPLIT = [("S:coherent:every-key-points-to-a-stored-tuple-that-lists-it", "WF_KEYS(self)"),
+             ("S:coherent:every-stored-tuple-is-owned-by-its-value", "WF_STORED(self)"),
+             ("S:coherent:every-item-of-a-stored-tuple-is-a-key-pointing-to-it", "WF_ITEMS(self)"),
+             ("S:coherent:every-value-owns-a-stored-tuple", "WF_VALUES(self)")]
 setitem = _mk(Contract(
     name="MultiKeyDict.__setitem__", qual="audiolazy/lazy_core.py::MultiKeyDict.__setitem__", kind="function", props=["C15"],
     modes={"single-key": Mode(params=dict(self=mkd_obj, key=_key, value=lambda m, n: z3.Const("value", V)), requires=["wf(self)"],
@@ -745,7 +790,7 @@ setitem = _mk(Contract(
                                        ("C:exactly-the-processed-keys-are-gone", "L2_MAP()"), ("C:order-inside-groups-kept", "L2_ORDER()")]),
            3: Loop(pre=[_l3_pre], inv=[("C:shape", "L3_SHAPE()"), ("C:assigned-so-far", "L3_KD()")])},
     ensures=[("S:each-value-owns-exactly-one-tuple-listing-exactly-its-keys", "SET_GROUPS()"),
-             ("S:the-three-maps-stay-coherent", "wf(self)")],
+             ("S:no-value-appears-from-nowhere", "SET_NO_NEW_VALUES()")] + _WF_SPLIT,
     replay="oracles.bounded_adapter:c15",
     stated=["d[k] = v makes k map to v and changes no other key's value; afterwards each value owns exactly one key tuple listing exactly its keys, "
             "the key just assigned last and all others in their previous relative order; the representation invariant is preserved"]))
